@@ -1,5 +1,4 @@
-import MJ.Proofs.ExprSim
-import MJ.Proofs.EvalFrame
+import MJ.Proofs.CompileRel
 /-!
 # Statements without back-patching (C03 stage 3)
 
@@ -50,6 +49,68 @@ mutual
     | _, [] => true
     | inLoop, s :: rest => simpleStmt inLoop s && simpleBlock inLoop rest
 end
+
+/-- `with` bindings of the fragment with calls -/
+def coreBinds : List (Target × Expr) → Bool
+  | [] => true
+  | (_, e) :: rest => coreExpr e && coreBinds rest
+
+def coreFilters : List FilterApp → Bool
+  | [] => true
+  | (_, args) :: rest => coreArgs args && coreFilters rest
+
+def coreDefaults : List Expr → Bool
+  | [] => true
+  | d :: rest => coreExpr d && coreDefaults rest
+
+mutual
+  /-- the statement fragment of the refinement theorem: `simpleStmt` over `coreExpr`, plus macro
+  declarations and call blocks (whose bodies are outside every loop: no `break` / `continue`) -/
+  def coreStmt : Bool → Stmt → Bool
+    | _, .text _ => true
+    | _, .emit e => coreExpr e
+    | _, .set _ e => coreExpr e
+    | inLoop, .ifS c t f => coreExpr c && coreBlock inLoop t && coreBlock inLoop f
+    | inLoop, .withS binds body => coreBinds binds && coreBlock inLoop body
+    | inLoop, .forS _ iter flt body els =>
+      coreExpr iter && (match flt with | some c => coreExpr c | none => true) && coreBlock true body &&
+        coreBlock inLoop els
+    | inLoop, .setBlock _ filters body => coreFilters filters && coreBlock inLoop body
+    | inLoop, .filterBlock filters body => coreFilters filters && coreBlock inLoop body
+    | _, .macroS _ _ defaults body _ => coreDefaults defaults && coreBlock false body
+    | _, .callBlock (.var _) args _ defaults body _ => coreCallArgs args && coreDefaults defaults && coreBlock false body
+    | _, .callBlock _ _ _ _ _ _ => false
+    | inLoop, .breakS => inLoop
+    | inLoop, .continueS => inLoop
+  def coreBlock : Bool → List Stmt → Bool
+    | _, [] => true
+    | inLoop, s :: rest => coreStmt inLoop s && coreBlock inLoop rest
+end
+
+/-- the prologue of a macro (`compile_macro_expression`): the arguments are on the operand stack,
+last one on top; `pds` is the list of parameters with their defaults, *last parameter first* -/
+def relPrologue : List (String × Option Expr) → Nat → Aux → List Instr × Aux
+  | [], _, a => ([], a)
+  | (p, none) :: rest, base, a =>
+    let rr := relPrologue rest (base + 1) a
+    ([.storeLocal p] ++ rr.1, rr.2)
+  | (p, some d) :: rest, base, a =>
+    let rd := relExpr d (base + 4) a
+    let rr := relPrologue rest (base + 4 + rd.1.length + 1) rd.2
+    ([.dupTop, .isUndefined, .jumpIfFalse (base + 4 + rd.1.length), .discardTop] ++ rd.1 ++ [.storeLocal p] ++ rr.1, rr.2)
+
+/-- `MACRO_CALLER` iff the macro looks up `caller` -/
+def macroFlags (fv : List String) : Nat := if fv.contains "caller" then macroCallerFlag else 0
+
+/-- the `Enclose` instructions of a macro declaration (all free names but `caller`) -/
+def relEnclose (fv : List String) : List Instr := (sortNames (fv.filter (· != "caller"))).map Instr.enclose
+
+/-- the code of a macro declaration expression that starts at `j`: the jump over the macro, its
+prologue `rp` and body `rb`, `Return`, and the instructions that build the macro value -/
+def macroDeclCode (name : String) (params : List String) (fv : List String) (j : Nat) (rp rb : List Instr) :
+    List Instr :=
+  [.jump (j + 1 + rp.length + rb.length + 1)] ++ rp ++ rb ++ [.return_] ++ relEnclose fv ++
+    [.getClosure, .loadConst (.list (params.map Val.str)), .buildMacro name (j + 1) (macroFlags fv)]
 
 mutual
   /-- `compile_assignment` without generator state -/
@@ -169,6 +230,21 @@ mutual
       let rb := relBlock body (base + 1) a (pushScope .capture lc)
       let rf := relFilters filters (base + 1 + rb.1.1.length + 1) rb.1.2
       (([.beginCapture] ++ rb.1.1 ++ [.endCapture] ++ rf.1 ++ [.emit], rf.2), rb.2)
+    | .macroS name params defaults body _, base, a, _ =>
+      -- the body of a macro is outside every loop
+      let rp := relPrologue (paramDefaults params defaults).reverse (base + 1) a
+      let rb := relBlock body (base + 1 + rp.1.length) rp.2 none
+      ((macroDeclCode name params (findMacroClosure params defaults body) base rp.1 rb.1.1 ++ [.storeLocal name],
+        rb.1.2), [])
+    | .callBlock (.var x) args params defaults body _, base, a, _ =>
+      let ra := relPosArgs args base a
+      let rk := relKwArgs args (base + ra.1.length) ra.2
+      let j := base + ra.1.length + rk.1.length + 1
+      let rp := relPrologue (paramDefaults params defaults).reverse (j + 1) rk.2
+      let rb := relBlock body (j + 1 + rp.1.length) rp.2 none
+      ((ra.1 ++ rk.1 ++ [.loadConst (.str "caller")] ++
+        macroDeclCode "caller" params (findMacroClosure params defaults body) j rp.1 rb.1.1 ++
+        [.buildKwargs ((kwArgs args).length + 1), .callFunction x ((posArgs args).length + 1), .emit], rb.1.2), [])
     | .breakS, base, a, some l =>
       ((leaveCode l.scopes ++ [.jump l.exit], a), [base + (leaveCode l.scopes).length])
     | .continueS, _, a, some l => ((leaveCode l.scopes ++ [.jump l.iter], a), [])
@@ -318,7 +394,7 @@ theorem relStmt_patched : ∀ (st : Stmt) (base : Nat) (a : Aux) (lc : Option Lo
   | .continueS, base, a, none, E => by simp [relStmt, setExit, Patched.refl]
   | .continueS, base, a, some l, E => by simp [relStmt, setExit, Patched.refl]
   | .macroS .., base, a, lc, E => by simp [relStmt, Patched.refl]
-  | .callBlock .., base, a, lc, E => by simp [relStmt, Patched.refl]
+  | .callBlock f .., base, a, lc, E => by cases f <;> simp [relStmt, Patched.refl]
 theorem relBlock_patched : ∀ (ss : List Stmt) (base : Nat) (a : Aux) (lc : Option LoopCtx) (E : Nat),
     Patched E base (relBlock ss base a (setExit 0 lc)).2 (relBlock ss base a (setExit 0 lc)).1.1
         (relBlock ss base a (setExit E lc)).1.1 ∧
@@ -567,29 +643,29 @@ theorem cTargets_eq_rel : ∀ (ts : List Target) (g : CG), cTargets ts g = g.ext
     simp
 end
 
-theorem cBinds_eq_rel : ∀ (binds : List (Target × Expr)) (g : CG), simpleBinds binds = true →
+theorem cBinds_eq_core : ∀ (binds : List (Target × Expr)) (g : CG), coreBinds binds = true →
     cBinds binds g = g.extend (relBinds binds g.next g.aux)
   | [], g, _ => by simp [cBinds, relBinds, CG.extend]
   | (t, e) :: rest, g, h => by
-    have hs : simpleExpr e = true ∧ simpleBinds rest = true := by simpa [simpleBinds] using h
+    have hs : coreExpr e = true ∧ coreBinds rest = true := by simpa [coreBinds] using h
     simp only [cBinds, relBinds]
-    rw [cExpr_eq_rel e g hs.1, cTarget_eq_rel, CG.extend_extend, cBinds_eq_rel rest _ hs.2]
+    rw [cExpr_eq_core e g hs.1, cTarget_eq_rel, CG.extend_extend, cBinds_eq_core rest _ hs.2]
     simp [CG.extend_extend, Nat.add_assoc]
 
-theorem cFilters_eq_rel : ∀ (fs : List FilterApp) (g : CG), simpleFilters fs = true →
+theorem cFilters_eq_core : ∀ (fs : List FilterApp) (g : CG), coreFilters fs = true →
     cFilters fs g = g.extend (relFilters fs g.next g.aux)
   | [], g, _ => by simp [cFilters, relFilters, CG.extend]
   | (name, args) :: rest, g, h => by
-    have hs : simpleArgs args = true ∧ simpleFilters rest = true := by simpa [simpleFilters] using h
+    have hs : coreArgs args = true ∧ coreFilters rest = true := by simpa [coreFilters] using h
     simp only [cFilters, relFilters]
-    rw [cArgs_eq_rel args g hs.1]
+    rw [cArgs_eq_core args g hs.1]
     have e1 : ((g.extend (relArgs args g.next g.aux)).filterId name).2.add
           (Instr.applyFilter name (1 + args.length) ((g.extend (relArgs args g.next g.aux)).filterId name).1) =
         g.extend ((relArgs args g.next g.aux).1 ++
           [Instr.applyFilter name (1 + args.length) ((relArgs args g.next g.aux).2.filterId name).1],
           ((relArgs args g.next g.aux).2.filterId name).2) := by
       simp [CG.filterId, CG.extend, CG.add]
-    rw [e1, cFilters_eq_rel rest _ hs.2]
+    rw [e1, cFilters_eq_core rest _ hs.2]
     simp [CG.extend_extend, Nat.add_assoc]
 
 theorem scope_block (g : CG) (k : ScopeKind) (C : List Instr × Aux) :
@@ -635,12 +711,12 @@ theorem for_else_block (g : CG) (Ci Cb Ce : List Instr × Aux) :
   rw [endFor_else_eq, if_block_noelse]
   simp [CG.extend, CG.next, Nat.add_assoc]; omega
 
-theorem filter_prefix_eq (t : Target) (iter c : Expr) (g : CG) (hi : simpleExpr iter = true)
-    (hc : simpleExpr c = true) :
+theorem filter_prefix_eq (t : Target) (iter c : Expr) (g : CG) (hi : coreExpr iter = true)
+    (hc : coreExpr c = true) :
     (((((((cExpr c (cTarget t (((cExpr iter (g.add (.loadConst (.int 0)))).startForLoop false).add .dupTop))).startIf.add
         .swap).add (.loadConst (.int 1))).add .add).startElse.add .discardTop).endIf.endForLoop false).add
         (.buildList none)) = g.extend (relForIter t iter (some c) g.next g.aux) := by
-  rw [cExpr_eq_rel iter _ hi, CG.add_eq_extend _ .dupTop, cTarget_eq_rel, cExpr_eq_rel c _ hc,
+  rw [cExpr_eq_core iter _ hi, CG.add_eq_extend _ .dupTop, cTarget_eq_rel, cExpr_eq_core c _ hc,
     CG.extend_extend, CG.extend_extend, filter_block]
   simp [relForIter, CG.extend, CG.next, CG.startForLoop, CG.add, Nat.add_assoc]
   have hb : g.code.length + ((relExpr iter (g.code.length + 1) g.aux).fst.length + ((relTarget t).length + 4)) =
@@ -844,58 +920,235 @@ theorem cStmt_for (target : Target) (iter : Expr) (filter : Option Expr) (body e
         | _ :: _ => (cBlock els ((cBlock body (cTarget target (cForPrefix target iter filter g))).endForLoop true).startIf).endIf) := by
   cases filter <;> cases els <;> simp only [cStmt, cForPrefix]
 
-theorem cForPrefix_eq (t : Target) (iter : Expr) (flt : Option Expr) (g : CG) (hi : simpleExpr iter = true)
-    (hc : ∀ c, flt = some c → simpleExpr c = true) :
+theorem cForPrefix_eq (t : Target) (iter : Expr) (flt : Option Expr) (g : CG) (hi : coreExpr iter = true)
+    (hc : ∀ c, flt = some c → coreExpr c = true) :
     cForPrefix t iter flt g = (g.extend (relForIter t iter flt g.next g.aux)).startForLoop true := by
   cases flt with
-  | none => simp only [cForPrefix, relForIter]; rw [cExpr_eq_rel iter g hi]
+  | none => simp only [cForPrefix, relForIter]; rw [cExpr_eq_core iter g hi]
   | some c => simp only [cForPrefix]; rw [filter_prefix_eq t iter c g hi (hc c rfl)]
 
+
+/-! ## macro declarations -/
+
+theorem enclose_fold : ∀ (names : List String) (g : CG),
+    names.foldl (fun g n => g.add (.enclose n)) g = g.extend (names.map Instr.enclose, g.aux)
+  | [], g => by simp [CG.extend]
+  | n :: rest, g => by
+    simp only [List.foldl, List.map]
+    rw [enclose_fold rest]; simp [CG.extend, CG.add]
+
+/-- the defaults of the parameter list are expressions of the fragment -/
+def corePds : List (String × Option Expr) → Bool
+  | [] => true
+  | (_, none) :: rest => corePds rest
+  | (_, some d) :: rest => coreExpr d && corePds rest
+
+theorem prologue_fold : ∀ (pds : List (String × Option Expr)) (g : CG) (b : Nat), b = g.next → corePds pds = true →
+    pds.foldl (fun g pd =>
+      let g := match pd.2 with
+        | some d => (cExpr d ((((g.add .dupTop).add .isUndefined).startIf).add .discardTop)).endIf
+        | none => g
+      g.add (.storeLocal pd.1)) g = g.extend (relPrologue pds b g.aux)
+  | [], g, b, _, _ => by simp [relPrologue, CG.extend]
+  | (p, none) :: rest, g, b, hb, h => by
+    have hs : corePds rest = true := by simpa [corePds] using h
+    subst hb
+    simp only [List.foldl, relPrologue]
+    rw [prologue_fold rest _ (g.next + 1) (by simp) hs]
+    simp [CG.extend, CG.add]
+  | (p, some d) :: rest, g, b, hb, h => by
+    have hs : coreExpr d = true ∧ corePds rest = true := by simpa [corePds] using h
+    subst hb
+    simp only [List.foldl, relPrologue]
+    have e0 : (g.add Instr.dupTop).add Instr.isUndefined = g.extend ([Instr.dupTop, Instr.isUndefined], g.aux) := by
+      simp [CG.add, CG.extend]
+    rw [e0]
+    have e1 : (cExpr d ((g.extend ([Instr.dupTop, Instr.isUndefined], g.aux)).startIf.add Instr.discardTop)).endIf =
+        ((g.extend ([Instr.dupTop, Instr.isUndefined], g.aux)).startIf.extend
+          ([Instr.discardTop] ++ (relExpr d (g.next + 4) g.aux).1, (relExpr d (g.next + 4) g.aux).2)).endIf := by
+      rw [cExpr_eq_core d _ hs.1]
+      simp [CG.extend, CG.add, CG.startIf, CG.next, Nat.add_assoc]
+    rw [e1, if_block_noelse]
+    rw [prologue_fold rest _ (g.next + 4 + (relExpr d (g.next + 4) g.aux).1.length + 1)
+      (by simp [CG.extend, CG.add, CG.next]; omega) hs.2]
+    simp [CG.extend, CG.add, CG.next, Nat.add_assoc]
+    omega
+
+theorem corePds_reverse_aux : ∀ (l acc : List (String × Option Expr)), corePds l = true → corePds acc = true →
+    corePds (l.reverseAux acc) = true
+  | [], acc, _, h => h
+  | (p, none) :: rest, acc, h1, h2 => by
+    simp only [List.reverseAux]
+    exact corePds_reverse_aux rest _ (by simpa [corePds] using h1) (by simpa [corePds] using h2)
+  | (p, some d) :: rest, acc, h1, h2 => by
+    have hs : coreExpr d = true ∧ corePds rest = true := by simpa [corePds] using h1
+    simp only [List.reverseAux]
+    exact corePds_reverse_aux rest _ hs.2 (by simp [corePds, hs.1, h2])
+
+theorem coreDefaults_getElem? : ∀ (ds : List Expr) (i : Nat) (d : Expr), coreDefaults ds = true → ds[i]? = some d →
+    coreExpr d = true
+  | [], _, _, _, h => by simp at h
+  | d0 :: rest, 0, d, hc, h => by
+    simp at h; subst h; have := hc; simp [coreDefaults] at this; exact this.1
+  | d0 :: rest, i + 1, d, hc, h => by
+    have : coreDefaults rest = true := by have := hc; simp [coreDefaults] at this; exact this.2
+    exact coreDefaults_getElem? rest i d this (by simpa using h)
+
+theorem corePds_map (ds : List Expr) (n : Nat) (hd : coreDefaults ds = true) : ∀ (l : List (String × Nat)),
+    corePds (l.map fun (x : String × Nat) => (x.1, if n ≤ x.2 then ds[x.2 - n]? else none)) = true
+  | [] => rfl
+  | (p, i) :: rest => by
+    simp only [List.map]
+    by_cases hn : n ≤ i
+    · simp only [hn, if_true]
+      cases hg : ds[i - n]? with
+      | none => simp only [corePds]; exact corePds_map ds n hd rest
+      | some d => simp only [corePds, coreDefaults_getElem? ds _ d hd hg, Bool.true_and]; exact corePds_map ds n hd rest
+    · simp only [hn, if_false, corePds]; exact corePds_map ds n hd rest
+
+theorem corePds_paramDefaults (params : List String) (defaults : List Expr) (hd : coreDefaults defaults = true) :
+    corePds (paramDefaults params defaults).reverse = true := by
+  unfold paramDefaults
+  rw [List.reverse]
+  exact corePds_reverse_aux _ [] (corePds_map defaults _ hd _) rfl
+
+theorem cMacroPrologue_eq (params : List String) (defaults : List Expr) (g : CG) (hd : coreDefaults defaults = true) :
+    cMacroPrologue (paramDefaults params defaults) g =
+      g.extend (relPrologue (paramDefaults params defaults).reverse g.next g.aux) := by
+  unfold cMacroPrologue
+  exact prologue_fold _ g g.next rfl (corePds_paramDefaults params defaults hd)
+
+/-- `compile_macro_expression` around the prologue `Rp` and the body `Rb`: the jump over the macro is
+patched to the instructions that build the macro value -/
+theorem macro_decl_block (name : String) (params fv : List String) (g : CG) (Rp Rb : List Instr × Aux) :
+    cMacroEpilogue name params fv g.next (((g.add (.jump unpatched)).extend Rp).extend Rb) =
+      g.extend (macroDeclCode name params fv g.next Rp.1 Rb.1, Rb.2) := by
+  simp only [cMacroEpilogue]
+  rw [enclose_fold]
+  have hc : ((((((((g.add (Instr.jump unpatched)).extend Rp).extend Rb).add Instr.return_).extend
+      (List.map Instr.enclose (sortNames (List.filter (fun x => x != "caller") fv)),
+        ((((g.add (Instr.jump unpatched)).extend Rp).extend Rb).add Instr.return_).aux)).add Instr.getClosure).add
+      (Instr.loadConst (Val.list (List.map Val.str params)))).add
+      (Instr.buildMacro name (g.next + 1) (if fv.contains "caller" = true then macroCallerFlag else 0))).code =
+      g.code ++ Instr.jump unpatched :: (Rp.1 ++ Rb.1 ++ [Instr.return_] ++ relEnclose fv ++
+        [Instr.getClosure, Instr.loadConst (Val.list (List.map Val.str params)),
+         Instr.buildMacro name (g.next + 1) (macroFlags fv)]) := by
+    simp [CG.add, CG.extend, relEnclose, macroFlags]
+  rw [patch_jump _ g.code _ g.next unpatched _ hc rfl]
+  simp [CG.extend, CG.add, CG.next, macroDeclCode, Nat.add_assoc]
+  omega
+
+/-- a macro declaration expression (`compile_macro_expression`) compiled at `g0`, given that the
+body compiles to its structured code -/
+theorem macro_expr_eq (name : String) (params : List String) (defaults : List Expr) (body : List Stmt) (g0 : CG)
+    (hd : coreDefaults defaults = true)
+    (ih : ∀ g : CG, cBlock body g = g.extend (relBlock body g.next g.aux none).1) :
+    cMacroEpilogue name params (findMacroClosure params defaults body) g0.next
+        (cBlock body (cMacroPrologue (paramDefaults params defaults) (g0.add (.jump unpatched)))) =
+      g0.extend (macroDeclCode name params (findMacroClosure params defaults body) g0.next
+        (relPrologue (paramDefaults params defaults).reverse (g0.next + 1) g0.aux).1
+        (relBlock body (g0.next + 1 + (relPrologue (paramDefaults params defaults).reverse (g0.next + 1) g0.aux).1.length)
+          (relPrologue (paramDefaults params defaults).reverse (g0.next + 1) g0.aux).2 none).1.1,
+        (relBlock body (g0.next + 1 + (relPrologue (paramDefaults params defaults).reverse (g0.next + 1) g0.aux).1.length)
+          (relPrologue (paramDefaults params defaults).reverse (g0.next + 1) g0.aux).2 none).1.2) := by
+  rw [cMacroPrologue_eq params defaults _ hd, ih]
+  have e1 : (g0.add (Instr.jump unpatched)).next = g0.next + 1 := by simp [CG.add, CG.next]
+  have e2 : (g0.add (Instr.jump unpatched)).aux = g0.aux := rfl
+  rw [e1, e2]
+  have e3 : ((g0.add (Instr.jump unpatched)).extend
+      (relPrologue (paramDefaults params defaults).reverse (g0.next + 1) g0.aux)).next =
+      g0.next + 1 + (relPrologue (paramDefaults params defaults).reverse (g0.next + 1) g0.aux).1.length := by
+    simp [CG.add, CG.next, CG.extend]; omega
+  rw [e3]
+  simp only [CG.extend_aux]
+  exact macro_decl_block name params _ g0 _ _
+
+/-! ## a block outside every loop records no `break` jumps -/
+
 mutual
-theorem cStmt_eq_rel : ∀ (st : Stmt) (g : CG) (lc : Option LoopCtx), simpleStmt lc.isSome st = true →
+theorem relStmt_breaks_nil : ∀ (st : Stmt) (b : Nat) (a : Aux), coreStmt false st = true → (relStmt st b a none).2 = []
+  | .text _, _, _, _ => by simp [relStmt]
+  | .emit _, _, _, _ => by simp [relStmt]
+  | .set _ _, _, _, _ => by simp [relStmt]
+  | .ifS c t [], b, a, h => by
+    have hs : coreExpr c = true ∧ coreBlock false t = true := by simpa [coreStmt, coreBlock] using h
+    simp only [relStmt]; exact relBlock_breaks_nil t _ _ hs.2
+  | .ifS c t (f :: fs), b, a, h => by
+    have hs : (coreExpr c = true ∧ coreBlock false t = true) ∧ coreBlock false (f :: fs) = true := by
+      simpa [coreStmt] using h
+    simp only [relStmt]
+    rw [relBlock_breaks_nil t _ _ hs.1.2, relBlock_breaks_nil (f :: fs) _ _ hs.2]; rfl
+  | .withS binds body, b, a, h => by
+    have hs : coreBinds binds = true ∧ coreBlock false body = true := by simpa [coreStmt] using h
+    simp only [relStmt, pushScope]; exact relBlock_breaks_nil body _ _ hs.2
+  | .forS t iter flt body [], b, a, h => by simp [relStmt]
+  | .forS t iter flt body (e0 :: es), b, a, h => by
+    have hs : coreBlock false (e0 :: es) = true := by
+      have := h; simp only [coreStmt, Bool.and_eq_true] at this; exact this.2
+    simp only [relStmt]; exact relBlock_breaks_nil (e0 :: es) _ _ hs
+  | .setBlock x fs body, b, a, h => by
+    have hs : coreFilters fs = true ∧ coreBlock false body = true := by simpa [coreStmt] using h
+    simp only [relStmt, pushScope]; exact relBlock_breaks_nil body _ _ hs.2
+  | .filterBlock fs body, b, a, h => by
+    have hs : coreFilters fs = true ∧ coreBlock false body = true := by simpa [coreStmt] using h
+    simp only [relStmt, pushScope]; exact relBlock_breaks_nil body _ _ hs.2
+  | .macroS .., _, _, _ => by simp [relStmt]
+  | .callBlock f .., _, _, _ => by cases f <;> simp [relStmt]
+  | .breakS, _, _, h => by simp [coreStmt] at h
+  | .continueS, _, _, h => by simp [coreStmt] at h
+theorem relBlock_breaks_nil : ∀ (ss : List Stmt) (b : Nat) (a : Aux), coreBlock false ss = true → (relBlock ss b a none).2 = []
+  | [], _, _, _ => by simp [relBlock]
+  | s :: rest, b, a, h => by
+    have hs : coreStmt false s = true ∧ coreBlock false rest = true := by simpa [coreBlock] using h
+    simp only [relBlock]
+    rw [relStmt_breaks_nil s b a hs.1, relBlock_breaks_nil rest _ _ hs.2]; rfl
+end
+
+mutual
+theorem cStmt_eq_core : ∀ (st : Stmt) (g : CG) (lc : Option LoopCtx), coreStmt lc.isSome st = true →
     Compat g.pending lc →
     cStmt st g = (g.extend (relStmt st g.next g.aux (setExit 0 lc)).1).withBreaks
       (relStmt st g.next g.aux (setExit 0 lc)).2
   | .text t, g, lc, _, _ => by simp [cStmt, relStmt, CG.add_eq_extend]
   | .emit e, g, lc, h, _ => by
-    have hs : simpleExpr e = true := by simpa [simpleStmt] using h
-    simp [cStmt, relStmt, cExpr_eq_rel e g hs]
+    have hs : coreExpr e = true := by simpa [coreStmt] using h
+    simp [cStmt, relStmt, cExpr_eq_core e g hs]
   | .set t e, g, lc, h, _ => by
-    have hs : simpleExpr e = true := by simpa [simpleStmt] using h
-    simp [cStmt, relStmt, cExpr_eq_rel e g hs, cTarget_eq_rel, CG.extend_extend]
+    have hs : coreExpr e = true := by simpa [coreStmt] using h
+    simp [cStmt, relStmt, cExpr_eq_core e g hs, cTarget_eq_rel, CG.extend_extend]
   | .ifS c t [], g, lc, h, hc => by
-    have hs : simpleExpr c = true ∧ simpleBlock lc.isSome t = true := by simpa [simpleStmt, simpleBlock] using h
+    have hs : coreExpr c = true ∧ coreBlock lc.isSome t = true := by simpa [coreStmt, coreBlock] using h
     simp only [cStmt, relStmt]
-    rw [cExpr_eq_rel c g hs.1, cBlock_eq_rel t _ lc hs.2 (Compat_of_view (by simp) (by simp) hc),
+    rw [cExpr_eq_core c g hs.1, cBlock_eq_core t _ lc hs.2 (Compat_of_view (by simp) (by simp) hc),
       endIf_withBreaks, if_block_noelse]
     simp [Nat.add_assoc]
   | .ifS c t (f :: fs), g, lc, h, hc => by
-    have hs : (simpleExpr c = true ∧ simpleBlock lc.isSome t = true) ∧ simpleBlock lc.isSome (f :: fs) = true := by
-      simpa [simpleStmt] using h
+    have hs : (coreExpr c = true ∧ coreBlock lc.isSome t = true) ∧ coreBlock lc.isSome (f :: fs) = true := by
+      simpa [coreStmt] using h
     simp only [cStmt, relStmt]
-    rw [cExpr_eq_rel c g hs.1.1, cBlock_eq_rel t _ lc hs.1.2 (Compat_of_view (by simp) (by simp) hc),
+    rw [cExpr_eq_core c g hs.1.1, cBlock_eq_core t _ lc hs.1.2 (Compat_of_view (by simp) (by simp) hc),
       startElse_withBreaks,
-      cBlock_eq_rel (f :: fs) _ lc hs.2 (Compat_of_view (by simp) (by simp) hc),
+      cBlock_eq_core (f :: fs) _ lc hs.2 (Compat_of_view (by simp) (by simp) hc),
       extend_withBreaks, CG.withBreaks_withBreaks, endIf_withBreaks]
     simp only [CG.next_withBreaks, CG.aux_withBreaks]
     rw [if_block]
     simp [Nat.add_assoc]
   | .withS binds body, g, lc, h, hc => by
-    have hs : simpleBinds binds = true ∧ simpleBlock (pushScope .with_ lc).isSome body = true := by
-      simpa [simpleStmt] using h
+    have hs : coreBinds binds = true ∧ coreBlock (pushScope .with_ lc).isSome body = true := by
+      simpa [coreStmt] using h
     simp only [cStmt, relStmt, pushScope_setExit]
-    rw [cBinds_eq_rel binds _ hs.1,
-      cBlock_eq_rel body _ (pushScope .with_ lc) hs.2 (Compat_push (by simp) (by simp) hc),
+    rw [cBinds_eq_core binds _ hs.1,
+      cBlock_eq_core body _ (pushScope .with_ lc) hs.2 (Compat_push (by simp) (by simp) hc),
       endScope_withBreaks, add_withBreaks]
     congr 1 <;>
     simp [CG.startScope, CG.endScope, CG.extend, CG.add, CG.next, Nat.add_assoc, Nat.add_comm]
   | .forS t iter flt body [], g, lc, h, hc => by
-    have hs : (simpleExpr iter = true ∧ (∀ c, flt = some c → simpleExpr c = true)) ∧ simpleBlock true body = true := by
-      cases flt <;> simp [simpleStmt, simpleBlock] at h <;> simp [h]
+    have hs : (coreExpr iter = true ∧ (∀ c, flt = some c → coreExpr c = true)) ∧ coreBlock true body = true := by
+      cases flt <;> simp [coreStmt, coreBlock] at h <;> simp [h]
     rw [cStmt_for, cForPrefix_eq t iter flt g hs.1.1 hs.1.2]
     simp only
     rw [cTarget_eq_rel,
-      cBlock_eq_rel body _ (some ⟨g.next + (relForIter t iter flt g.next g.aux).1.length + 1, 0, []⟩) hs.2
+      cBlock_eq_core body _ (some ⟨g.next + (relForIter t iter flt g.next g.aux).1.length + 1, 0, []⟩) hs.2
         ⟨by simp, by simp⟩]
     simp only [CG.next_extend, next_startFor_ext, aux_startFor_ext, CG.extend_aux, setExit, relStmt]
     have hp := (relBlock_patched body (g.next + (relForIter t iter flt g.next g.aux).1.length + 2 + (relTarget t).length)
@@ -916,13 +1169,13 @@ theorem cStmt_eq_rel : ∀ (st : Stmt) (g : CG) (lc : Option LoopCtx), simpleStm
         (by simp only [List.length_append]; omega) rfl)]
     simp [hp2, Nat.add_assoc]
   | .forS t iter flt body (e0 :: es), g, lc, h, hc => by
-    have hs : ((simpleExpr iter = true ∧ (∀ c, flt = some c → simpleExpr c = true)) ∧ simpleBlock true body = true) ∧
-        simpleBlock lc.isSome (e0 :: es) = true := by
-      cases flt <;> simp [simpleStmt] at h <;> simp [h]
+    have hs : ((coreExpr iter = true ∧ (∀ c, flt = some c → coreExpr c = true)) ∧ coreBlock true body = true) ∧
+        coreBlock lc.isSome (e0 :: es) = true := by
+      cases flt <;> simp [coreStmt] at h <;> simp [h]
     rw [cStmt_for, cForPrefix_eq t iter flt g hs.1.1.1 hs.1.1.2]
     simp only
     rw [cTarget_eq_rel,
-      cBlock_eq_rel body _ (some ⟨g.next + (relForIter t iter flt g.next g.aux).1.length + 1, 0, []⟩) hs.1.2
+      cBlock_eq_core body _ (some ⟨g.next + (relForIter t iter flt g.next g.aux).1.length + 1, 0, []⟩) hs.1.2
         ⟨by simp, by simp⟩]
     simp only [CG.next_extend, next_startFor_ext, aux_startFor_ext, CG.extend_aux, setExit_some, relStmt]
     have hp := (relBlock_patched body (g.next + (relForIter t iter flt g.next g.aux).1.length + 2 + (relTarget t).length)
@@ -941,7 +1194,7 @@ theorem cStmt_eq_rel : ∀ (st : Stmt) (g : CG) (lc : Option LoopCtx), simpleStm
     rw [CG.extend_extend, for_block_brk g Ri _ R0.2 (relTarget t ++ RE.1.1) true
       ((Patched.pre (b := g.next + Ri.1.length + 2) (relTarget t) hp1).cast2
         (by simp only [List.length_append]; omega) rfl),
-      cBlock_eq_rel (e0 :: es) _ lc hs.2 (Compat_of_view (by simp) (by simp) hc), endIf_withBreaks]
+      cBlock_eq_core (e0 :: es) _ lc hs.2 (Compat_of_view (by simp) (by simp) hc), endIf_withBreaks]
     simp only [next_startIf_ext, aux_startIf_ext]
     rw [if_block_noelse]
     simp [hp1.length_eq, hp2, Nat.add_assoc]
@@ -952,49 +1205,155 @@ theorem cStmt_eq_rel : ∀ (st : Stmt) (g : CG) (lc : Option LoopCtx), simpleStm
         g.next + (Ri.1.length + (2 + ((relTarget t).length + (R0.1.1.length + (4 + n))))) := by intro n; omega
     rw [hj]
   | .setBlock x filters body, g, lc, h, hc => by
-    have hs : simpleFilters filters = true ∧ simpleBlock (pushScope .capture lc).isSome body = true := by
-      simpa [simpleStmt] using h
+    have hs : coreFilters filters = true ∧ coreBlock (pushScope .capture lc).isSome body = true := by
+      simpa [coreStmt] using h
     simp only [cStmt, relStmt, pushScope_setExit]
-    rw [cBlock_eq_rel body _ (pushScope .capture lc) hs.2 (Compat_push (by simp) (by simp) hc),
-      endScope_withBreaks, add_withBreaks, cFilters_eq_rel filters _ hs.1, extend_withBreaks, add_withBreaks]
+    rw [cBlock_eq_core body _ (pushScope .capture lc) hs.2 (Compat_push (by simp) (by simp) hc),
+      endScope_withBreaks, add_withBreaks, cFilters_eq_core filters _ hs.1, extend_withBreaks, add_withBreaks]
     simp only [CG.next_withBreaks, CG.aux_withBreaks]
     rw [scope_block]
     congr 1 <;>
     simp [CG.extend, CG.add, CG.next, CG.startScope, Nat.add_assoc, Nat.add_comm, Nat.add_left_comm]
   | .filterBlock filters body, g, lc, h, hc => by
-    have hs : simpleFilters filters = true ∧ simpleBlock (pushScope .capture lc).isSome body = true := by
-      simpa [simpleStmt] using h
+    have hs : coreFilters filters = true ∧ coreBlock (pushScope .capture lc).isSome body = true := by
+      simpa [coreStmt] using h
     simp only [cStmt, relStmt, pushScope_setExit]
-    rw [cBlock_eq_rel body _ (pushScope .capture lc) hs.2 (Compat_push (by simp) (by simp) hc),
-      endScope_withBreaks, add_withBreaks, cFilters_eq_rel filters _ hs.1, extend_withBreaks, add_withBreaks]
+    rw [cBlock_eq_core body _ (pushScope .capture lc) hs.2 (Compat_push (by simp) (by simp) hc),
+      endScope_withBreaks, add_withBreaks, cFilters_eq_core filters _ hs.1, extend_withBreaks, add_withBreaks]
     simp only [CG.next_withBreaks, CG.aux_withBreaks]
     rw [scope_block]
     congr 1 <;>
     simp [CG.extend, CG.add, CG.next, CG.startScope, Nat.add_assoc, Nat.add_comm, Nat.add_left_comm]
-  | .macroS .., _, lc, h, _ => by simp [simpleStmt] at h
-  | .callBlock .., _, lc, h, _ => by simp [simpleStmt] at h
-  | .breakS, g, none, h, _ => by simp [simpleStmt] at h
+  | .macroS name params defaults body uc, g, lc, h, _ => by
+    have hs : coreDefaults defaults = true ∧ coreBlock false body = true := by simpa [coreStmt] using h
+    have ih : ∀ g' : CG, cBlock body g' = g'.extend (relBlock body g'.next g'.aux none).1 := by
+      intro g'
+      have hb := cBlock_eq_core body g' none hs.2 trivial
+      simp only [setExit] at hb
+      rw [hb, relBlock_breaks_nil body _ _ hs.2, CG.withBreaks_nil]
+    simp only [cStmt, relStmt]
+    rw [macro_expr_eq name params defaults body g hs.1 ih]
+    simp [CG.extend, CG.add, CG.withBreaks]
+  | .callBlock (.var x) args params defaults body uc, g, lc, h, _ => by
+    have hs : (coreCallArgs args = true ∧ coreDefaults defaults = true) ∧ coreBlock false body = true := by
+      simpa [coreStmt] using h
+    have ih : ∀ g' : CG, cBlock body g' = g'.extend (relBlock body g'.next g'.aux none).1 := by
+      intro g'
+      have hb := cBlock_eq_core body g' none hs.2 trivial
+      simp only [setExit] at hb
+      rw [hb, relBlock_breaks_nil body _ _ hs.2, CG.withBreaks_nil]
+    simp only [cStmt, relStmt, callKind, callName]
+    simp only [beq_self_eq_true, if_true]
+    rw [cPosArgs_eq_core args g hs.1.1, cKwArgs_eq_core args _ hs.1.1]
+    have e0 : ((g.extend (relPosArgs args g.next g.aux)).extend
+        (relKwArgs args (g.extend (relPosArgs args g.next g.aux)).next (g.extend (relPosArgs args g.next g.aux)).aux)).add
+        (Instr.loadConst (Val.str "caller")) =
+        g.extend ((relPosArgs args g.next g.aux).1 ++
+          (relKwArgs args (g.next + (relPosArgs args g.next g.aux).1.length) (relPosArgs args g.next g.aux).2).1 ++
+          [Instr.loadConst (Val.str "caller")],
+          (relKwArgs args (g.next + (relPosArgs args g.next g.aux).1.length) (relPosArgs args g.next g.aux).2).2) := by
+      simp [CG.extend, CG.add, CG.next]
+    rw [e0]
+    generalize hG : g.extend ((relPosArgs args g.next g.aux).1 ++
+          (relKwArgs args (g.next + (relPosArgs args g.next g.aux).1.length) (relPosArgs args g.next g.aux).2).1 ++
+          [Instr.loadConst (Val.str "caller")],
+          (relKwArgs args (g.next + (relPosArgs args g.next g.aux).1.length) (relPosArgs args g.next g.aux).2).2) = G
+    have hGn : G.next = g.next + (relPosArgs args g.next g.aux).1.length +
+        (relKwArgs args (g.next + (relPosArgs args g.next g.aux).1.length) (relPosArgs args g.next g.aux).2).1.length + 1 := by
+      subst hG; simp [CG.extend, CG.next]; omega
+    have hGa : G.aux = (relKwArgs args (g.next + (relPosArgs args g.next g.aux).1.length) (relPosArgs args g.next g.aux).2).2 := by
+      subst hG; rfl
+    rw [macro_expr_eq "caller" params defaults body G hs.1.2 ih, hGn, hGa]
+    subst hG
+    simp [CG.extend, CG.add, CG.withBreaks, Nat.add_assoc]
+  | .callBlock (.const _) .., _, lc, h, _ => by simp [coreStmt] at h
+  | .callBlock (.unop _ _) .., _, lc, h, _ => by simp [coreStmt] at h
+  | .callBlock (.binop _ _ _) .., _, lc, h, _ => by simp [coreStmt] at h
+  | .callBlock (.cmp _ _) .., _, lc, h, _ => by simp [coreStmt] at h
+  | .callBlock (.ife _ _ _) .., _, lc, h, _ => by simp [coreStmt] at h
+  | .callBlock (.filter _ _ _) .., _, lc, h, _ => by simp [coreStmt] at h
+  | .callBlock (.test _ _ _) .., _, lc, h, _ => by simp [coreStmt] at h
+  | .callBlock (.getattr _ _) .., _, lc, h, _ => by simp [coreStmt] at h
+  | .callBlock (.getitem _ _) .., _, lc, h, _ => by simp [coreStmt] at h
+  | .callBlock (.call _ _) .., _, lc, h, _ => by simp [coreStmt] at h
+  | .callBlock (.list _) .., _, lc, h, _ => by simp [coreStmt] at h
+  | .callBlock (.map _) .., _, lc, h, _ => by simp [coreStmt] at h
+  | .breakS, g, none, h, _ => by simp [coreStmt] at h
   | .breakS, g, some l, _, hc => by
     simp only [cStmt, relStmt, setExit]
     rw [leaveScopes_eq, hc.2]
     simp [CG.withBreaks, CG.addBreak, CG.extend, CG.add, CG.next, Nat.add_assoc]
-  | .continueS, g, none, h, _ => by simp [simpleStmt] at h
+  | .continueS, g, none, h, _ => by simp [coreStmt] at h
   | .continueS, g, some l, _, hc => by
     simp only [cStmt, relStmt, setExit]
     rw [leaveScopes_eq, hc.2]
     have h1 := hc.1
     simp [h1, CG.extend, CG.add]
-theorem cBlock_eq_rel : ∀ (ss : List Stmt) (g : CG) (lc : Option LoopCtx), simpleBlock lc.isSome ss = true →
+theorem cBlock_eq_core : ∀ (ss : List Stmt) (g : CG) (lc : Option LoopCtx), coreBlock lc.isSome ss = true →
     Compat g.pending lc →
     cBlock ss g = (g.extend (relBlock ss g.next g.aux (setExit 0 lc)).1).withBreaks
       (relBlock ss g.next g.aux (setExit 0 lc)).2
   | [], g, lc, _, _ => by simp [cBlock, relBlock, CG.extend]
   | s :: rest, g, lc, h, hc => by
-    have hs : simpleStmt lc.isSome s = true ∧ simpleBlock lc.isSome rest = true := by simpa [simpleBlock] using h
+    have hs : coreStmt lc.isSome s = true ∧ coreBlock lc.isSome rest = true := by simpa [coreBlock] using h
     simp only [cBlock, relBlock]
-    rw [cStmt_eq_rel s g lc hs.1 hc, cBlock_eq_rel rest _ lc hs.2 (Compat_of_view (by simp) (by simp) hc),
+    rw [cStmt_eq_core s g lc hs.1 hc, cBlock_eq_core rest _ lc hs.2 (Compat_of_view (by simp) (by simp) hc),
       extend_withBreaks, CG.withBreaks_withBreaks]
     simp [CG.extend_extend]
 end
+
+/-! ## the call-free fragment -/
+
+theorem simple_coreBinds : ∀ (bs : List (Target × Expr)), simpleBinds bs = true → coreBinds bs = true
+  | [], _ => rfl
+  | (_, e) :: rest, h => by
+    simp only [simpleBinds, Bool.and_eq_true] at h; simp only [coreBinds, Bool.and_eq_true]
+    exact ⟨simple_core e h.1, simple_coreBinds rest h.2⟩
+
+theorem simple_coreFilters : ∀ (fs : List FilterApp), simpleFilters fs = true → coreFilters fs = true
+  | [], _ => rfl
+  | (_, args) :: rest, h => by
+    simp only [simpleFilters, Bool.and_eq_true] at h; simp only [coreFilters, Bool.and_eq_true]
+    exact ⟨simple_coreArgs args h.1, simple_coreFilters rest h.2⟩
+
+mutual
+theorem simple_coreStmt : ∀ (l : Bool) (st : Stmt), simpleStmt l st = true → coreStmt l st = true
+  | _, .text _, _ => rfl
+  | _, .emit e, h => by simp only [simpleStmt] at h; simp only [coreStmt]; exact simple_core e h
+  | _, .set _ e, h => by simp only [simpleStmt] at h; simp only [coreStmt]; exact simple_core e h
+  | l, .ifS c t f, h => by
+    simp only [simpleStmt, Bool.and_eq_true] at h; simp only [coreStmt, Bool.and_eq_true]
+    exact ⟨⟨simple_core c h.1.1, simple_coreBlock l t h.1.2⟩, simple_coreBlock l f h.2⟩
+  | l, .withS binds body, h => by
+    simp only [simpleStmt, Bool.and_eq_true] at h; simp only [coreStmt, Bool.and_eq_true]
+    exact ⟨simple_coreBinds binds h.1, simple_coreBlock l body h.2⟩
+  | l, .forS _ iter flt body els, h => by
+    simp only [simpleStmt, Bool.and_eq_true] at h; simp only [coreStmt, Bool.and_eq_true]
+    refine ⟨⟨⟨simple_core iter h.1.1.1, ?_⟩, simple_coreBlock true body h.1.2⟩, simple_coreBlock l els h.2⟩
+    cases flt with
+    | none => rfl
+    | some c => exact simple_core c h.1.1.2
+  | l, .setBlock _ fs body, h => by
+    simp only [simpleStmt, Bool.and_eq_true] at h; simp only [coreStmt, Bool.and_eq_true]
+    exact ⟨simple_coreFilters fs h.1, simple_coreBlock l body h.2⟩
+  | l, .filterBlock fs body, h => by
+    simp only [simpleStmt, Bool.and_eq_true] at h; simp only [coreStmt, Bool.and_eq_true]
+    exact ⟨simple_coreFilters fs h.1, simple_coreBlock l body h.2⟩
+  | _, .macroS .., h => by simp [simpleStmt] at h
+  | _, .callBlock .., h => by simp [simpleStmt] at h
+  | _, .breakS, h => by simpa [simpleStmt, coreStmt] using h
+  | _, .continueS, h => by simpa [simpleStmt, coreStmt] using h
+theorem simple_coreBlock : ∀ (l : Bool) (ss : List Stmt), simpleBlock l ss = true → coreBlock l ss = true
+  | _, [], _ => rfl
+  | l, s :: rest, h => by
+    simp only [simpleBlock, Bool.and_eq_true] at h; simp only [coreBlock, Bool.and_eq_true]
+    exact ⟨simple_coreStmt l s h.1, simple_coreBlock l rest h.2⟩
+end
+
+theorem cBlock_eq_rel (ss : List Stmt) (g : CG) (lc : Option LoopCtx) (h : simpleBlock lc.isSome ss = true)
+    (hc : Compat g.pending lc) :
+    cBlock ss g = (g.extend (relBlock ss g.next g.aux (setExit 0 lc)).1).withBreaks
+      (relBlock ss g.next g.aux (setExit 0 lc)).2 :=
+  cBlock_eq_core ss g lc (simple_coreBlock _ ss h) hc
 
 end MJ.Compile
